@@ -9,20 +9,7 @@ verus! {
 //@include prelude/ring_stub.rs
 //@include prelude/crypto_types.rs
 
-pub open spec fn alg_of(s: SignatureScheme) -> int {
-    match s {
-        SignatureScheme::Ed25519 => 1,
-        SignatureScheme::RsaSsaPssSha256 => 2,
-        SignatureScheme::RsaSsaPssSha512 => 3,
-        SignatureScheme::EcdsaP256Sha256 => 4,
-        SignatureScheme::Unknown(_) => 0,
-    }
-}
 impl PublicKey {
-    pub closed spec fn sig_ok(self, msg: Seq<u8>, sig: Signature) -> bool {
-        !(self.scheme is Unknown) && ring::signature::sig_valid(alg_of(self.scheme), self.value.0@, msg, sig.value.0@)
-    }
-    pub closed spec fn kid(self) -> KeyId { self.key_id }
 //@extract src/crypto.rs impl:PublicKey/fn:key_id
 //@contract ret=r
     ensures *r == self.kid(),
@@ -41,33 +28,9 @@ impl Clone for MetadataWrapper {
     #[verifier::external_body]
     fn clone(&self) -> (r: Self) ensures r == *self { unimplemented!() }
 }
-// assumed: Json::canonicalize(Json::serialize(m)) is a deterministic partial function of m
-pub uninterp spec fn canon_bytes(m: MetadataWrapper) -> Option<Seq<u8>>;
-impl MetadataWrapper {
-    #[verifier::external_body]
-    pub fn to_bytes(&self) -> (r: Result<Vec<u8>>)
-        ensures match canon_bytes(*self) { Some(b) => r is Ok && r->Ok_0@ == b, None => r is Err }
-    { unimplemented!() }
-}
-// the byte string that is signed and verified for a metadata value
-pub open spec fn signed_msg(m: MetadataWrapper) -> Option<Seq<u8>> {
-    match canon_bytes(m) {
-        Some(b) => if vstd::utf8::valid_utf8(b) {
-            Some(vstd::utf8::encode_utf8(str_replace(vstd::utf8::decode_utf8(b), "\\n"@, "\n"@)))
-        } else { None },
-        None => None,
-    }
-}
 //@take src/models/metadata.rs struct:Metablock drop_derives=Debug,Clone,PartialEq,Eq
 
-// id `id` is counted: an authorized key with that id has a valid signature, attributed to that id, over the signed bytes
-pub open spec fn counted_ok(mb: Metablock, keys: Seq<&PublicKey>, id: KeyId) -> bool {
-    signed_msg(mb.metadata) is Some &&
-    exists|i: int, j: int| 0 <= i < keys.len() && 0 <= j < mb.signatures@.len()
-        && (#[trigger] keys[i]).kid() == id && (#[trigger] mb.signatures@[j]).kid() == id
-        && keys[i].sig_ok(signed_msg(mb.metadata)->0, mb.signatures@[j])
-}
-
+//@include contracts/metablock_specs.rs
 impl Metablock {
 //@extract src/models/metadata.rs impl:Metablock/fn:verify props=C04,C14 as=Metablock::verify<Vec>
 //@subst D7 /pub fn verify<'a, I>\(/ => pub fn verify<'a>(
